@@ -77,10 +77,14 @@ package sql
 //@   pure result2
 
 //@ func compositeDecl
-//@   props C08
+//@   props C08 C05
 //@   nosafety
 //@   requires is(cp.Type(), *an.Struct) ==> (forall i int :: 0 <= i && i < len(as(cp.Type(), *an.Struct).Fields) ==> as(cp.Type(), *an.Struct).Fields[i].Field != nil)
-//@   loop st.Fields.1 invariant fresh(fields) && allocated(fields)
+//@   -- C05: the composite type declares ALL the fields of the struct, in order (the CRUD converters write and read all
+//@   -- of them positionally)
+//@   ensures len(fields) == len(st.Fields)
+//@   callverb fmt.Sprintf "AS (%s);" strings.Join(fields, ", ")
+//@   loop st.Fields.1 invariant fresh(fields) && allocated(fields) && len(fields) == len(st.Fields)
 
 // one CREATE TABLE per table, named by the snake-case-plural convention, with one line per column in column
 // order; the id column is the serial primary key
